@@ -54,7 +54,7 @@ def call(ctx, *a, **kw):
 
 def run_case(ctx, k, rng):
     kind = str(rng.choice(["int", "dyadic", "equal", "dominant", "wide", "float"]))
-    n = int(rng.choice([1, 2, 3, 4, 5, 8, 13, 30, 50]))
+    n = int(rng.choice([1, 2, 3, 4, 5, 8, 13, 30, 50])) if rng.random() < 0.97 else int(rng.choice([127, 128, 129, 256, 257, 1000]))
     dgm = gen_bars(rng, n, kind)
     scen = int(rng.integers(0, 6))
     ctx.begin(k, "%s/s%d" % (kind, scen), {"dgm": dgm, "scenario": scen})
